@@ -369,7 +369,14 @@ impl NodeStream {
             }));
             if let Err(p) = r {
                 let m = p.downcast_ref::<String>().cloned().or_else(|| p.downcast_ref::<&str>().map(|s| s.to_string())).unwrap_or("?".into());
-                out.violation(if m.contains("concurrency") { "C17" } else { "C05" }, "facade-panic", format!("the API facade panicked in call c{no} ({}): {m}", c.what));
+                let plain_put = ["put_imm", "announce", "sannounce"].iter().any(|k| c.what.split(' ').nth(2) == Some(*k));
+                if m.contains("concurrency") && plain_put {
+                    // puts are registered by target alone: a put of another kind on the same 20 bytes
+                    // replaced this call's query, and this caller was handed that query's outcome
+                    out.violation("C06", "cross-kind-put-shares-outcome", format!("call c{no} ({}) got the concurrency error of a put_mutable on the same target, which its facade treats as unreachable: the caller panics ({m})", c.what.chars().take(60).collect::<String>()));
+                } else {
+                    out.violation(if m.contains("concurrency") { "C17" } else { "C05" }, "facade-panic", format!("the API facade panicked in call c{no} ({}): {m}", c.what));
+                }
                 if m.contains("dropped before sending") || m.contains("Disconnected") {
                     // the actor dropped the caller's channel without sending an outcome
                     out.violation("C06", "caller-dropped-without-outcome", format!("call c{no} ({}) was never answered: its channel was dropped by the actor ({m})", c.what));
@@ -859,8 +866,21 @@ impl Stream for NodeStream {
                                         *e = *e && m.read_only();
                                     }
                                     MessageType::Response(_) => {
-                                        if let Some(k) = kv(toks, "re") {
-                                            let in_time = self.req_sent_at.get(k).map(|t| now - t < 450 * MS).unwrap_or(false);
+                                        // the request this answers: named by its key, or (an answer to a request
+                                        // the node has since repeated) by its transaction id
+                                        let by_tid = if kv(toks, "re").is_none() {
+                                            self.all_sent.iter().rev().find(|x| x.key.is_some() && x.msg.transaction_id() == tid).map(|x| (x.key.clone().unwrap_or_default(), x.at))
+                                        } else {
+                                            None
+                                        };
+                                        let named: Option<(String, Option<u64>)> = match (kv(toks, "re"), by_tid) {
+                                            (Some(k), _) => Some((k.to_string(), self.req_sent_at.get(k).copied())),
+                                            (None, Some((k, at))) => Some((k, Some(at))),
+                                            _ => None,
+                                        };
+                                        if let Some((k, sent_at)) = named {
+                                            let k = k.as_str();
+                                            let in_time = sent_at.map(|t| now - t < 450 * MS).unwrap_or(false);
                                             let right_addr = k.starts_with(&format!("{}/", addr_s(&from)));
                                             if right_addr && !m.read_only() {
                                                 self.any_reply.insert(from, now);
@@ -1611,9 +1631,15 @@ pub fn chaos_round(out: &mut Out, rng: &mut Rng, t0: u64, round: usize) {
     };
     d.begin_at(mode, &boot, cfg_pub, real_ip, rng.next() % 1_000_000 + 1, t0);
     d.run_for(SEC, 10 * MS);
-    let targets: Vec<Id> = (0..2).map(|_| Id::from_bytes(rng.id20()).expect("id")).collect();
+    // few targets, shared by calls of different kinds: two random ones, the immutable value's, and the
+    // targets of the mutable items (lookups are keyed by the 20 bytes alone)
     let v = format!("chaos {}", round % 3).into_bytes();
     let vt = imm_target(&v);
+    let mut targets: Vec<Id> = (0..2).map(|_| Id::from_bytes(rng.id20()).expect("id")).collect();
+    targets.push(vt);
+    for salt in item_salts.iter().take(2) {
+        targets.push(*MutableItem::new(&key_from_seed(9), b"x", 1, *salt).target());
+    }
     let pk = hex(key_from_seed(9).verifying_key().as_bytes());
     let sh = |s: Option<&[u8]>| s.map(hex).unwrap_or("none".into());
     for _ in 0..(8 + rng.below(14)) {
@@ -2610,6 +2636,29 @@ pub fn run(out: &mut Out, seed: u64, thorough: bool, replay: Option<&str>) {
         d.run("snap".into());
         d.finish();
         d.out.mark_distinct(fnv(format!("T{n}").as_bytes()));
+        d.s.shutdown();
+    }
+    // ---- X: two puts of different kinds on the same 20 bytes (C06): puts are registered by target alone
+    for first in ["sannounce", "announce"] {
+        t0 += 10_000_000_000_000;
+        let mut net = VNet::new(&mut rng, 5, true);
+        for p in net.peers.iter_mut() {
+            p.put_reply = 302;
+            p.put_delay = 200 * MS;
+        }
+        let boot = vec![net.peers[0].addr];
+        let mut d = Driver::new(out, rng.next(), net);
+        d.begin("c", &boot, None, rng.next() % 1_000_000 + 1, t0);
+        d.run_for(2 * SEC, 10 * MS);
+        let item = MutableItem::new(&key_from_seed(9), b"m", 3, None);
+        let t = *item.target();
+        d.api(if first == "sannounce" { sannounce_call(&t, 5) } else { format!("announce ih={} port=7000", hex(t.as_bytes())) });
+        d.run_for(30 * MS, 5 * MS);
+        let call = put_mut_call(9, 3, b"m", None, None);
+        d.api(call);
+        d.settle(20 * SEC, 10 * MS);
+        d.finish();
+        d.out.mark_distinct(fnv(format!("X{first}").as_bytes()));
         d.s.shutdown();
     }
     // ---- I: more than 1000 distinct lookup targets roll the lookup cache (C20)
